@@ -12,6 +12,7 @@ extern size_t __sanitizer_get_current_allocated_bytes(void);
 #include <limits.h>
 #include <new>
 #include "array.cpp"
+#include "identifier.cpp"
 #include "types.h"
 #include "array.h"
 
@@ -76,6 +77,18 @@ class XR : public reference_array<Obj>
 public:
 	XR() { }
 	XR(const XR &a) : reference_array<Obj>(a) { }
+	buffer *wb() { return this->_ref.instance(); }
+	const buffer *b() const
+	{
+		const buffer *p = this->_ref.instance();
+		return (p && p->get_flags() == (BufferImmutable | BufferShared | BufferNoCopy)) ? 0 : p;
+	}
+};
+/* item_array<Obj>: unique array of named references (item<T> = reference<T> + identifier) */
+class XI : public item_array<Obj>
+{
+public:
+	XI() { }
 	const buffer *b() const
 	{
 		const buffer *p = this->_ref.instance();
@@ -84,7 +97,20 @@ public:
 };
 #define NH 6
 static XR *hs[NH];
+static XI *is[NH];
 static int nh;
+static int mode;   /* 0 = undecided, 1 = reference_array handles, 2 = item_array handles (per script) */
+static const buffer *buf_of(int h)
+{
+	if (mode == 2) return is[h] ? is[h]->b() : 0;
+	return hs[h] ? hs[h]->b() : 0;
+}
+static size_t stride(void) { return mode == 2 ? sizeof(item<Obj>) : sizeof(void *); }
+static const void *elem_ptr(const uint8_t *e)
+{
+	if (mode == 2) return reinterpret_cast<const item<Obj> *>(e)->instance();
+	return *(void * const *) e;
+}
 static size_t heap0;
 
 static uintptr_t ref_of(const buffer *b) { return *(const uintptr_t *) ((const uint8_t *) b - 32); }
@@ -101,15 +127,15 @@ static void check_all(int final)
 	nseen = 0;
 	memset(obj_found, 0, sizeof(obj_found));
 	for (int h = 0; h < nh; h++) {
-		const buffer *b = hs[h] ? hs[h]->b() : 0;
+		const buffer *b = buf_of(h);
 		int i;
 		if (!b) continue;
 		for (i = 0; i < nseen; i++) if (seen[i] == b) break;
 		if (i < nseen) { refs_found[i]++; continue; }
 		seen[nseen] = b; refs_found[nseen] = 1; nseen++;
 		const uint8_t *d = (const uint8_t *) (b + 1);
-		for (size_t p = 0; p + sizeof(void *) <= used_of(b); p += sizeof(void *)) {
-			const void *ptr = *(void * const *) (d + p);
+		for (size_t p = 0; p + stride() <= used_of(b); p += stride()) {
+			const void *ptr = elem_ptr(d + p);
 			Obj *o = ptr ? obj_of(ptr) : 0;
 			if (ptr && !o) mark_illegal("stored-unknown", 0);
 			else if (o) { if (o->dead) mark_illegal("stored-dead-obj", o->id); obj_found[o->id - 1]++; }
@@ -128,14 +154,14 @@ static void put_state(const char *verdict, const char *ret, int final)
 	printf("R %s | C %s ev=%s", illegal[0] ? illegal : "legal", verdict, evlen ? evlog : "-");
 	evlen = 0; evlog[0] = 0;
 	for (int h = 0; h < nh; h++) {
-		const buffer *b = hs[h] ? hs[h]->b() : 0;
+		const buffer *b = buf_of(h);
 		printf(" h%d=", h);
 		if (!b) { fputc('-', stdout); continue; }
 		fputs("U[", stdout);
 		const uint8_t *d = (const uint8_t *) (b + 1);
 		int first = 1;
-		for (size_t p = 0; p + sizeof(void *) <= used_of(b); p += sizeof(void *)) {
-			const void *ptr = *(void * const *) (d + p);
+		for (size_t p = 0; p + stride() <= used_of(b); p += stride()) {
+			const void *ptr = elem_ptr(d + p);
 			Obj *o = ptr ? obj_of(ptr) : 0;
 			if (!first) fputc(' ', stdout);
 			first = 0;
@@ -156,7 +182,7 @@ static void put_state(const char *verdict, const char *ret, int final)
 }
 static void drop_all(void)
 {
-	for (int h = 0; h < NH; h++) { delete hs[h]; hs[h] = 0; }
+	for (int h = 0; h < NH; h++) { delete hs[h]; hs[h] = 0; delete is[h]; is[h] = 0; }
 }
 static void reset_all(void)
 {
@@ -190,7 +216,7 @@ int main(void)
 	drv_init();
 	setvbuf(stdout, outbuf, _IOLBF, sizeof(outbuf));
 	{ buffer *b = _mpt_buffer_alloc(1, 0); b->unref(); }
-	{ XR probe; }   /* function-local statics of the templates */
+	{ XR probe; XI probe2; }   /* function-local statics of the templates */
 	while (fgets(line, sizeof(line), stdin)) {
 		size_t a, b;
 		long pos;
@@ -208,14 +234,15 @@ int main(void)
 			if (drv_parse_nat(drv_w[2], &a) || a < 1 || a > NH) BAD;
 			reset_all();
 			nh = (int) a;
-			for (int i = 0; i < nh; i++) hs[i] = new XR;
+			for (int i = 0; i < nh; i++) { hs[i] = new XR; is[i] = new XI; }
+			mode = 0;
 			heap0 = __sanitizer_get_current_allocated_bytes();
 			RES("ok", "-");
 			goto next;
 		}
 		if (!nh) BAD;
 		if (!strcmp(op, "end") && drv_nw == 2) {
-			for (int i = 0; i < nh; i++) { delete hs[i]; hs[i] = new XR; }
+			for (int i = 0; i < nh; i++) { delete hs[i]; hs[i] = new XR; delete is[i]; is[i] = new XI; }
 			RES("ok", "-");
 			r_final = 1;
 			goto next;
@@ -223,27 +250,54 @@ int main(void)
 		if (drv_nw < 3 || (h = handle_arg(drv_w[2])) < 0) BAD;
 		if (!strcmp(op, "rdrop") && drv_nw == 3) {
 			delete hs[h]; hs[h] = new XR;
+			delete is[h]; is[h] = new XI;
 			RES("ok", "-");
 		}
 		else if (!strcmp(op, "rclone") && drv_nw == 4) {         /* h = h2 */
 			if ((h2 = handle_arg(drv_w[3])) < 0) BAD;
 			*static_cast<reference_array<Obj> *>(hs[h]) = *hs[h2];
+			*static_cast<item_array<Obj> *>(is[h]) = *is[h2];
 			RES("ok", "-");
 		}
+		else if (!strcmp(op, "iappend") && drv_nw == 5) {        /* item_array::append(new object, name of the given length | no name) */
+			char *name = 0;
+			if (mode == 1 || drv_parse_nat(drv_w[3], &b) || b > 1) BAD;
+			if (strcmp(drv_w[4], "-")) {
+				if (drv_parse_nat(drv_w[4], &a) || a > 100000) BAD;
+				name = (char *) malloc(a + 1);
+				memset(name, 'n', a); name[a] = 0;
+			}
+			mode = 2;
+			Obj *o = obj_new((int) b);
+			item<Obj> *it = is[h]->append(o, name, name ? (int) a : -1);
+			free(name);
+			if (it) RES("ok", "true");
+			else { o->unref(); RES("refused", "false"); }
+		}
+		else if (mode == 2) BAD;
 		else if (!strcmp(op, "rins") && drv_nw == 5) {           /* insert(pos, new object) */
 			if (long_arg(drv_w[3], &pos) || drv_parse_nat(drv_w[4], &b) || b > 1) BAD;
+			mode = 1;
 			Obj *o = obj_new((int) b);
 			if (hs[h]->insert(pos, o)) RES("ok", "true");
 			else { o->unref(); RES("refused", "false"); }
 		}
 		else if (!strcmp(op, "rset") && drv_nw == 5) {           /* set(pos, new object) */
 			if (long_arg(drv_w[3], &pos) || drv_parse_nat(drv_w[4], &b) || b > 1) BAD;
+			mode = 1;
 			Obj *o = obj_new((int) b);
 			if (hs[h]->set(pos, o)) RES("ok", "true");
 			else { o->unref(); RES("refused", "false"); }
 		}
+		else if (!strcmp(op, "bcopy") && drv_nw == 4) {          /* buffer::copy(): content of h2's buffer into the buffer of h, in place */
+			if ((h2 = handle_arg(drv_w[3])) < 0 || !hs[h]->b() || !hs[h2]->b()) BAD;
+			mode = 1;
+			if (hs[h]->wb()->copy(*hs[h2]->b())) RES("ok", "true");
+			else RES("refused", "false");
+		}
 		else if (!strcmp(op, "rclear") && drv_nw == 3) {
 			char ret[24];
+			mode = 1;
 			snprintf(ret, sizeof(ret), "%ld", hs[h]->clear());
 			RES("ok", ret);
 		}
